@@ -243,6 +243,11 @@ fn mutations(r: &mut Rng, name: &str) -> Vec<(String, &'static str)> {
     out
 }
 
+/// Tokens that code sometimes special-cases (package file suffixes, backup
+/// suffixes, path prefixes, a byte order mark): appended / prepended to
+/// patterns and names so that such a special case cannot hide.
+const DICT: [&str; 14] = [".tgz", ".tbz", ".txz", ".tzst", ".tar.gz", ".orig", ".rej", "~", "./", "\u{feff}", ".pkg", "/", "nb1", "-1.0"];
+
 fn simple_char(c: char) -> bool {
     c.is_ascii_alphanumeric() || c == '-'
 }
@@ -370,7 +375,17 @@ pub fn run(cx: &mut Cx) {
     let mut r = cx.stream("tokens");
     for _ in 0..n {
         let glob = r.chance(3, 4);
-        let toks = gen_tokens(&mut r, glob);
+        let mut toks = gen_tokens(&mut r, glob);
+        if r.chance(1, 8) {
+            let d = DICT[r.below(DICT.len())];
+            if r.chance(1, 4) {
+                for (i, c) in d.chars().enumerate() {
+                    toks.insert(i, Tok::Lit(c));
+                }
+            } else {
+                toks.extend(d.chars().map(Tok::Lit));
+            }
+        }
         let mut p = render(&toks);
         // occasionally break a bracket to get the malformed-glob class
         if glob && r.chance(1, 25) {
@@ -385,6 +400,14 @@ pub fn run(cx: &mut Cx) {
         for _ in 0..2 {
             let nm = sample(&mut r, &toks);
             names.extend(mutations(&mut r, &nm));
+            if r.chance(1, 3) {
+                let d = DICT[r.below(DICT.len())];
+                names.push((format!("{nm}{d}"), "dict-suffix"));
+                names.push((format!("{d}{nm}"), "dict-prefix"));
+                if let Some(st) = nm.strip_suffix(d) {
+                    names.push((st.to_string(), "dict-stripped"));
+                }
+            }
             names.push((nm, "lang"));
         }
         cx.check(
